@@ -163,6 +163,72 @@ def computeTimeStepCached (flag : Bool) (sqrt : α → α) (arrs : List (Arr α)
     (fixedH : Option (Ext α)) : Res α :=
   computeTimeStepFrom (explicitDtAdaptWith flag arrs) sqrt arrs cfl fixedH
 
+/-! ## the integrator as a state machine over a whole run
+
+`Integrator` keeps three pieces of state between calls: the cached flag
+`_has_dt_adapt` (assigned by the first `compute_time_step`), `fixed_h`, and
+`h_minimum` (assigned by `compute_h_minimum`, which `set_fixed_h(True)` and a
+`compute_time_step` with `fixed_h` off both call).  The arrays handed to each
+operation are the particle arrays *as they are at that moment*: between calls
+particles come and go, `h` changes and properties are added. -/
+
+structure IState (α : Type) where
+  flag : Option Bool            -- `_has_dt_adapt`
+  fixedH : Bool                 -- `fixed_h`
+  hMin : Option (Ext α)         -- `h_minimum`; `none`: attribute never assigned
+
+def IState.init : IState α := { flag := Option.none, fixedH := false, hMin := Option.none }
+
+inductive IOp (α : Type) where
+  | setFixedH (b : Bool) (arrs : List (Arr α))
+  | cts (arrs : List (Arr α)) (cfl : α)
+
+/-- `set_fixed_h(b)` with the arrays as they are now -/
+def IState.setFixedH (s : IState α) (b : Bool) (arrs : List (Arr α)) : IState α :=
+  { flag := s.flag, fixedH := b, hMin := if b then some (hMinimum arrs) else s.hMin }
+
+/-- `compute_time_step(dt, cfl)` with the arrays as they are now: new state and result -/
+def IState.cts (sqrt : α → α) (s : IState α) (arrs : List (Arr α)) (cfl : α) :
+    IState α × Res α :=
+  let flag := s.flag.getD (hasDtAdapt arrs)
+  match explicitDtAdaptWith flag arrs with
+  | Res.none =>
+    if s.fixedH then
+      match s.hMin with
+      | Option.none => ({ flag := some flag, fixedH := true, hMin := Option.none }, Res.error)
+      | some h => ({ flag := some flag, fixedH := true, hMin := some h },
+                   computeTimeStepFrom Res.none sqrt arrs cfl (some h))
+    else
+      ({ flag := some flag, fixedH := false, hMin := some (hMinimum arrs) },
+       computeTimeStepFrom Res.none sqrt arrs cfl Option.none)
+  | r => ({ flag := some flag, fixedH := s.fixedH, hMin := s.hMin }, r)   -- early return
+
+def istep (sqrt : α → α) (s : IState α) : IOp α → IState α × Option (Res α)
+  | IOp.setFixedH b arrs => (s.setFixedH b arrs, Option.none)
+  | IOp.cts arrs cfl => let r := s.cts sqrt arrs cfl; (r.1, some r.2)
+
+/-- the state after a whole history of operations on a fresh integrator -/
+def irun (sqrt : α → α) (ops : List (IOp α)) : IState α :=
+  ops.foldl (fun s op => (istep sqrt s op).1) IState.init
+
+/-- what the history says `fixed_h`/`h_minimum` should be: the smallest `h` at the
+latest `set_fixed_h(True)` if no `set_fixed_h(False)` followed it -/
+def lastFixedStep (acc : Option (Ext α)) : IOp α → Option (Ext α)
+  | IOp.setFixedH true arrs => some (hMinimum arrs)
+  | IOp.setFixedH false _ => Option.none
+  | IOp.cts _ _ => acc
+
+def lastFixed (ops : List (IOp α)) : Option (Ext α) := ops.foldl lastFixedStep Option.none
+
+/-- the flag cached by the first `compute_time_step` of the history -/
+def flagStep (acc : Option Bool) : IOp α → Option Bool
+  | IOp.setFixedH _ _ => acc
+  | IOp.cts arrs _ => match acc with
+    | some b => some b
+    | Option.none => some (hasDtAdapt arrs)
+
+def flagOf (ops : List (IOp α)) : Option Bool := ops.foldl flagStep Option.none
+
 /-- `Solver._compute_timestep` (serial, adaptive): fall back to the fixed step -/
 def solverTimestepOf (r : Res α) (undamped : α) : Res α :=
   match r with
